@@ -104,7 +104,12 @@ def build(ck):
              'lemma:container-congruence (sum / block row / diagonal / column are functions of their blocks)')
     ck.assume_note('C01: operator containers (sum terms, blocks) are modelled as flat leaf sequences with an opaque '
                    'treedef; nested containers are not distinguished from flat ones')
-    ck.assume_note('C01: termination of the rule scan is not proved (no variant); only partial correctness')
+    ck.assume_note('C01: termination of the rule scan is proved by the lexicographic variant (length, potential, length - index) '
+                   'under the termination clause of the rule contract: a rule returning two operators lowers the potential of the '
+                   'chain (only QURotationHWPRule does: it moves the HWP left of a rotation; potential = number of '
+                   '(rotation, HWP) inversions), and relocating/merging scalar factors does not raise it (trusted: the potential '
+                   'ignores scalar operators). Termination of the recursion over the expression tree is structural.')
+    ck.trust('lemma:potential (inversion count of (rotation, HWP) pairs: >= 0, lowered by R·H -> H·R\', unaffected by scalar factors)')
     driver.scan(ck, T, 'C01')
     driver.rules_scenarios(ck, T, 'C01')
     from props import lemmas
